@@ -9,6 +9,7 @@ git -C /repo worktree add -q --detach $wt HEAD || exit 2
 miss=0
 for d in seeded/${1:-*}/; do
   name=$(basename $d); id=${name%%-*}
+  if grep -q '"status": "neutralised' $d/meta.json 2>/dev/null; then echo "$name SKIPPED (neutralised by a later repair, see meta.json)"; continue; fi
   git -C $wt checkout -q -- . 
   if ! git -C $wt apply /verif/$d/patch.diff 2>/dev/null; then echo "$name PATCH-DOES-NOT-APPLY"; miss=$((miss+1)); continue; fi
   o=$(VF_REPO=$wt VF_NO_EVIDENCE=1 ./check $id --tier ${TIER:-quick} 2>/dev/null); rc=$?
